@@ -157,6 +157,19 @@ def unique [BEq R] (full : List R) (x : List R) (new : List R) : Except Err (Lis
   else if full.length < x.length then .error .value
   else uniqueGo x [] new
 
+/-- no repeated entry (Bool, by `==`) -/
+def nodupB [BEq R] : List R → Bool
+  | [] => true
+  | a :: t => !t.contains a && nodupB t
+
+/-- the contract of the list handed to `shuffle` (constraints.py l.1150 `new = list(set(full) - unique)`, `full` ANY
+sequence of allowed values - repeated members and any listing order included), evaluated on the list the real run hands
+over: no repeats, every entry an allowed value that does not occur in `x`, every allowed value that does not occur in
+`x` is listed.  The driver reports it beside the result, so the pool construction is inside the correspondence. -/
+def uniquePoolOk [BEq R] (full x new : List R) : Bool :=
+  nodupB new && new.all (fun v => full.contains v && !x.contains v) &&
+    full.all (fun v => x.contains v || new.contains v)
+
 /-! ## bounded / impose_bounds (l.1186-1355) -/
 
 def inAny [LE R] [DecidableLE R] (ivs : List (R × R)) (a : R) : Bool :=
